@@ -578,6 +578,17 @@ def iter_step(sim, st, it):
             if item is None:
                 return Opaque("Flatten", (inner, None)), None
             cur = as_iterator(sim, st, item)
+    if it.kind == "Scan":
+        inner, oid, f, done = it.data
+        if done:
+            return it, None
+        inner2, item = step_any(sim, st, inner)
+        if item is None:
+            return Opaque("Scan", (inner2, oid, f, True)), None
+        r = sim.force_variant(st, sim.call_sync(st, f, [Ref(Ptr(oid), True), item]))
+        if r.vname == "Some":
+            return Opaque("Scan", (inner2, oid, f, False)), r.fields[0]
+        return Opaque("Scan", (inner2, oid, f, True)), None
     if it.kind == "TakeWhile":
         inner, f, done = it.data
         if done:
@@ -660,7 +671,7 @@ def drain(sim, st, it, limit=64):
     raise S.Unsupported("iterator longer than %d items" % limit)
 
 
-@pattern(r"^<std::(slice::Iter(Mut)?<'a, T>|array::IntoIter<T, N>|iter::(Take|Skip|Enumerate|Rev|Copied|Cloned|Flatten)<I>|iter::Once<T>|option::IntoIter<A>|option::Iter<'a, A>|iter::(Map|Filter|FilterMap|TakeWhile|SkipWhile)<I, [A-Z]\w*>|iter::FlatMap<I, U, F>|iter::(Zip|Chain)<A, B>|collections::vec_deque::Iter(Mut)?<'a, T>|vec::IntoIter<T, A>) as std::iter::Iterator>::next$")
+@pattern(r"^<std::(slice::Iter(Mut)?<'a, T>|array::IntoIter<T, N>|iter::(Take|Skip|Enumerate|Rev|Copied|Cloned|Flatten)<I>|iter::Once<T>|option::IntoIter<A>|option::Iter<'a, A>|iter::(Map|Filter|FilterMap|TakeWhile|SkipWhile)<I, [A-Z]\w*>|iter::Scan<I, St, F>|iter::FlatMap<I, U, F>|iter::(Zip|Chain)<A, B>|collections::vec_deque::Iter(Mut)?<'a, T>|vec::IntoIter<T, A>) as std::iter::Iterator>::next$")
 def m_slice_iter_next(sim, st, c):
     p = sim.deref_value(st, c["args"][0])
     it = sim.read(st, p)
@@ -1326,6 +1337,17 @@ def list_at(sim, st, p):
     raise S.Unsupported("list operation on %r (symbolic-length collection)" % (v,))
 
 
+@pattern(r"^std::collections::VecDeque::<T, A>::range(_mut)?$")
+def m_deque_range(sim, st, c):
+    p = sim.deref_value(st, c["args"][0])
+    l = list_at(sim, st, p)
+    n = len(l.data[0])
+    lo, hi = range_bounds(sim, st, c["args"][1], n)
+    if not (0 <= lo <= hi <= n):
+        raise S.SimPanic("index-oob", "range %d..%d out of range for length %d" % (lo, hi, n), c["span"])
+    return Opaque("SliceIter", (p, lo, hi, c["fn"]["name"] == "range_mut"))
+
+
 @pattern(r"^std::(collections::VecDeque|vec::Vec)::<T>::(new|with_capacity)$")
 def m_list_new(sim, st, c):
     return mk_list((), c["ret_ty"])
@@ -1392,6 +1414,12 @@ def m_list_index(sim, st, c):
     p = sim.deref_value(st, c["args"][0])
     l = list_at(sim, st, p)
     i = sim.resolve(st, c["args"][1])
+    if isinstance(i, Struct):       # vec[a..b]
+        n = len(l.data[0])
+        lo, hi = range_bounds(sim, st, i, n)
+        if not (0 <= lo <= hi <= n):
+            raise S.SimPanic("index-oob", "range %d..%d out of range for length %d" % (lo, hi, n), c["span"])
+        return Ref(p.ext(("sl", lo, hi)))
     if not isinstance(i, Const):
         raise S.Unsupported("symbolic list index")
     if not (0 <= i.val < len(l.data[0])):
@@ -1540,6 +1568,18 @@ def m_seq_index(sim, st, c):
     return Ref(base.ext(("sl", a + lo, a + hi)), mut)
 
 
+@pattern(r"^std::array::<impl \[T; N\]>::as_(mut_)?slice$")
+def m_array_as_slice(sim, st, c):
+    r = sim.resolve(st, c["args"][0])
+    return Ref(r.ptr, c["fn"]["name"] == "as_mut_slice")
+
+
+@model("std::iter::Iterator::scan")
+def m_iter_scan(sim, st, c):
+    oid = st.new_obj("scan_state", c["args"][1])
+    return Opaque("Scan", (c["args"][0], oid, c["args"][2], False))
+
+
 @model("std::slice::<impl [T]>::split_first", "std::slice::<impl [T]>::split_first_mut")
 def m_split_first(sim, st, c):
     r = sim.resolve(st, c["args"][0])
@@ -1592,6 +1632,11 @@ def m_iter_filter_map(sim, st, c):
 @model("std::iter::Iterator::zip")
 def m_iter_zip(sim, st, c):
     other = sim.resolve(st, c["args"][1])
+    if isinstance(other, Array):      # zip(array by value)
+        other = Opaque("ArrayIntoIter", (tuple(other.elems), 0))
+    if isinstance(other, Ref) and other.ptr.path and other.ptr.path[-1][0] == "sl":      # &collection[a..b]
+        base, a, b = slice_bounds(sim, st, other)
+        other = Opaque("SliceIter", (base, a, b, bool(other.mut)))
     if isinstance(other, Ref):   # IntoIterator for &collection
         tgt = sim.expand(st, sim.read(st, other.ptr))
         if isinstance(tgt, Array):
@@ -1834,6 +1879,15 @@ def m_slice_get(sim, st, c):
     r = sim.resolve(st, c["args"][0])
     base, a, b = slice_bounds(sim, st, r)
     i = sim.resolve(st, c["args"][1])
+    if isinstance(i, Struct):
+        # slice.get(range): None when the range is out of bounds, otherwise the sub-slice
+        try:
+            lo, hi = range_bounds(sim, st, i, b - a)
+        except Exception:
+            raise S.Unsupported("symbolic get range")
+        if not (0 <= lo <= hi <= b - a):
+            return sim.mk_enum(c["ret_ty"], "None")
+        return sim.mk_enum(c["ret_ty"], "Some", [Ref(base.ext(("sl", a + lo, a + hi)))])
     if not isinstance(i, Const):
         raise S.Unsupported("symbolic get index")
     if 0 <= i.val < b - a:
@@ -1852,7 +1906,7 @@ def _register_iter_methods():
                      ("zip", "m_iter_zip"), ("chain", "m_iter_chain"), ("take", "m_iter_take"), ("skip", "m_iter_skip"), ("enumerate", "m_iter_enumerate"),
                      ("rev", "m_iter_rev"), ("copied", "m_iter_copied"), ("cloned", "m_iter_copied"), ("next", "m_slice_iter_next"),
                      ("flatten", "m_iter_flatten"), ("flat_map", "m_iter_flat_map"), ("take_while", "m_iter_take_while"), ("skip_while", "m_iter_skip_while"),
-                     ("nth", "m_iter_nth"), ("position", "m_iter_position")):
+                     ("nth", "m_iter_nth"), ("position", "m_iter_position"), ("scan", "m_iter_scan")):
         ITER_METHODS[name] = g[fn]
 
 
